@@ -119,7 +119,8 @@ def obligations(prog):
         else:
             obs.append(Obligation("R-NULL", "R-NULL:%s:%s" % k, s["loc"], s["fn"], text, True,
                                   "%d dereference(s), all guarded; %d NULL test(s)" % (len(s["derefs"]), s["tests"]), props=s["props"]))
-    return obs, {"armed": len(armed), "matched": len(seen), "tested_but_not_armed": not_armed[:40]}
+    nc, nst = nullcount_obligations(prog)
+    return obs + nc, {"armed": len(armed), "matched": len(seen), "tested_but_not_armed": not_armed[:40], "null_count_pairs": nst["pairs"]}
 
 
 if __name__ == "__main__":
@@ -137,3 +138,46 @@ if __name__ == "__main__":
         bad = [d for d in s["derefs"] if not d[1]]
         if bad:
             print("UNGUARDED", s["fn"], s["param"], bad[:3])
+
+
+# ------------------------------------------------------------------ optional array <-> its count
+
+def nullcount_scan(prog):
+    """{(function, pointer parameter): count variable} for argument checks of the form `p != NULL || count == 0`."""
+    out = {}
+    for f in prog.functions.values():
+        if not f.blocks or not f.file.startswith("src/") or f.file.endswith("tests_impl.h") or \
+                f.file.startswith(("src/bench", "src/tests", "src/testrand", "src/unit_test", "src/ctime", "src/precompute")):
+            continue
+        for b in f.blocks.values():
+            if b.cond is None or not b.term or not any(m in ("ARG_CHECK", "ARG_CHECK_VOID") for m in b.term.get("macros", [])):
+                continue
+            for x in walk(b.cond):
+                if kind(x) != "bin" or x[1] != "||":
+                    continue
+                for a, c in ((x[2], x[3]), (x[3], x[2])):
+                    t = _null_test(a)
+                    cs = strip(c)
+                    if t and t[1] and t[0] in f.param_index and kind(cs) == "bin" and cs[1] == "==" and \
+                            ((is_int(cs[3], 0) and kind(strip(cs[2])) == "var") or (is_int(cs[2], 0) and kind(strip(cs[3])) == "var")):
+                        v = strip(cs[2])[1] if kind(strip(cs[2])) == "var" else strip(cs[3])[1]
+                        out.setdefault((f.name, t[0]), set()).add(v)
+    return out
+
+
+def nullcount_obligations(prog):
+    """An optional array may be NULL exactly when *its own* count is zero: the count variable paired with each pointer in
+    `ARG_CHECK(p != NULL || count == 0)` on the reviewed tree (tables/null_count.json) is still the one in that check."""
+    tab = load_table("null_count.json")["pairs"]
+    cur = nullcount_scan(prog)
+    obs = []
+    for ent in tab:
+        k = (ent["function"], ent["param"])
+        f = prog.functions.get(k[0])
+        if f is None or k not in cur:
+            continue          # the check changed shape or moved: nothing to compare
+        ok = cur[k] == {ent["count"]}
+        obs.append(Obligation("R-NULL", "R-NULL:count:%s:%s" % k, f.loc, k[0],
+                              "%s may be NULL exactly when %s is zero: the argument check of %s pairs the pointer with its own count" % (k[1], ent["count"], k[0]),
+                              ok, "paired with %s" % ", ".join(sorted(cur[k])), props=props_of_function(f) | {"C07"}))
+    return obs, {"pairs": len(tab)}
